@@ -45,17 +45,17 @@ REQUIRED_THEOREMS = [
     'Yaql.Props.C20Gen.datetime_params_convert', 'Yaql.Props.C20Gen.modelled_signatures',
     'Yaql.Props.C20.units_float', 'Yaql.Props.C20.tsUnitF_single', 'Yaql.Props.C20.tsUnitF_exact', 'Yaql.Props.C20.tsUnitF_mono',
     'Yaql.Props.C20.tsUnitF_value', 'Yaql.Props.C20.timestamp_float', 'Yaql.Props.C20.timestamp_float_roundtrip',
-    'Yaql.Props.C20.tsDivTs_float',
+    'Yaql.Props.C20.tsDivTs_float', 'Yaql.Props.C20.ts_scale_float',
     'Yaql.Props.FloatRound.roundRat_nearest', 'Yaql.Props.FloatRound.roundRat_exact', 'Yaql.Props.FloatRound.roundRat_tie_even',
     'Yaql.Props.FloatRound.roundRat_mono', 'Yaql.Props.FloatRound.roundRat_congr', 'Yaql.Props.FloatRound.divBits_pos',
 ]
 TRUSTED = ['CPython datetime/timedelta as the carrier of the real values (fixed-offset tzinfo only)',
-           'the platform float steps that CONSUME a float: float -> microseconds rounding of datetime.fromtimestamp and '
-           'timedelta(microseconds=float), and ts * float / ts / number (the harness only feeds inputs on which these '
-           'agree with exact rational rounding, and counts the ones it had to skip).  NOT trusted any more: the float '
-           'steps that PRODUCE the float-valued results - float(int), int / int, float / float of the unit properties, '
-           '.timestamp and ts / ts are modelled (FloatRound.roundRat / divBits, proved correctly rounded) and compared bit '
-           'for bit',
+           'one platform float step: the float -> microseconds rounding of datetime.fromtimestamp (a float multiplication '
+           'by 1e6 inside _PyTime_ObjectToTimeval; the harness only feeds timestamps on which it agrees with exact rational '
+           'rounding).  NOT trusted any more: float(int), int / int, float / float, float * float and '
+           'timedelta(microseconds=<float>) - the unit properties, .timestamp, ts / ts, ts * number and ts / number are '
+           'modelled step by step (FloatRound.roundRat / divBits / mulBits, roundRat proved correctly rounded) and compared '
+           'bit for bit / microsecond for microsecond on arbitrary floats',
            'harness/gens/datetimedefs.py reads the declared parameter types of the live registrations']
 ASSUMPTIONS = ['tzinfo objects are fixed-offset (dateutil tzutc/tzoffset, datetime.timezone, a custom fixed class); '
                'DST zones with PEP 495 folds are outside the model',
@@ -735,6 +735,15 @@ def ref_us(n):
     return r[1] if r and r[0] == 'ts' else None
 
 
+def float_step_inexact(fl, exact):
+    """the platform's float result, rounded to microseconds, differs from the exactly computed one (counted only: the
+    model performs the float steps itself)"""
+    try:
+        return rhe(Fraction(fl())) != rhe(exact())
+    except (OverflowError, ValueError, ZeroDivisionError):
+        return True
+
+
 def gen_ts(rng, depth, hist):
     r = rng.random()
     if depth <= 0 or r < 0.35:
@@ -752,33 +761,22 @@ def gen_ts(rng, depth, hist):
     t = gen_ts(rng, depth - 1, hist)
     us = ref_us(t)
     if r < 0.90:
-        # ts * n, n * ts
-        if rng.random() < 0.6 or us is None or abs(us) >= 2 ** 53:
+        # ts * n, n * ts: an int factor is exact; a float factor is float(us) * x (one IEEE multiplication), then
+        # timedelta(microseconds=<float>) - every step is in the model (tsMulNumF), so any float may be fed
+        if rng.random() < 0.5:
             n = L_i(rng.choice([0, 1, -1, 2, 3, 7, -5, 1000, 10 ** 6, rng.randrange(-100, 100)]), rng.random() < 0.2)
         else:
-            n = None
-            for _ in range(10):
-                x = rng.choice([0.5, 1.5, -0.5, 0.25, 2.5, 1e-3, 0.1, 1 / 3, rng.uniform(-4, 4), 1e6, 1e-6])
-                p = float(us) * x
-                if rhe(Fraction(p)) == rhe(Fraction(us) * Fraction(x)):
-                    n = L_fl(x)
-                    break
-                hist['float-step-skipped'] = hist.get('float-step-skipped', 0) + 1
-            if n is None:
-                n = L_i(2)
+            x = rng.choice([0.5, 1.5, -0.5, 0.25, 2.5, 1e-3, 0.1, 1 / 3, rng.uniform(-4, 4), 1e6, 1e-6, 0.0, -0.0, 1e-300,
+                            2.0 ** -1074, 1e300, -1e300, 0.1 + rng.random() * 1e-9])
+            n = L_fl(x)
+            if us is not None and float_step_inexact(lambda: float(us) * x, lambda: Fraction(us) * Fraction(x)):
+                hist['float-step-inexact'] = hist.get('float-step-inexact', 0) + 1
         return C('*', [t, n] if rng.random() < 0.5 else [n, t])
-    # ts / n
-    for _ in range(10):
-        x = rng.choice([1, 2, 3, -2, 7, 1000, 10 ** 6, 0, rng.randrange(-50, 50), 0.5, 1.5, -0.25, 0.0, 1e3,
-                        rng.uniform(-4, 4)])
-        if us is None or x == 0:
-            break
-        q = us / x
-        if rhe(Fraction(q)) == rhe(Fraction(us) / Fraction(x)):
-            break
-        hist['float-step-skipped'] = hist.get('float-step-skipped', 0) + 1
-    else:
-        return t        # so large that every quotient leaves the exactly representable range
+    # ts / n: int / int is one correctly rounded division, int / float is float(us) then one IEEE division (tsDivNumF)
+    x = rng.choice([1, 2, 3, -2, 7, 1000, 10 ** 6, 0, rng.randrange(-50, 50), 0.5, 1.5, -0.25, 0.0, 1e3, 1e-300, 3e-9,
+                    rng.uniform(-4, 4), 1 / 3, 10 ** 20 + 1])
+    if us is not None and x != 0 and float_step_inexact(lambda: us / x, lambda: Fraction(us) / Fraction(x)):
+        hist['float-step-inexact'] = hist.get('float-step-inexact', 0) + 1
     return C('/', [t, L_fl(x) if isinstance(x, float) else L_i(x, rng.random() < 0.2)])
 
 
@@ -1328,8 +1326,9 @@ LEVEL_NOTE = ('trusted: Lean kernel; hand-written model Yaql/Model/DateTime.lean
               'float-valued results (unit properties, .timestamp, ts / ts) are computed by the model as IEEE doubles '
               '(float(int), int / int and float / float = FloatRound.roundRat / divBits) and compared with the real results BIT FOR '
               'BIT; the property-level oracle on the real code alone keeps "up to float rounding" (1 ulp, 3 ulps beyond 2**53 us). '
-              'Still outside the model: the float -> microseconds rounding of fromtimestamp / timedelta(microseconds=float) and '
-              'ts * float, ts / number (inputs fed only where platform rounding equals exact rounding).  format/parse, now, '
-              'localtz are not modelled.')
+              'ts * number and ts / number run through the modelled float steps too (any float is fed; the histogram counts the '
+              'cases where the float result differs from exact rational rounding).  Still outside the model: the float -> '
+              'microseconds rounding of fromtimestamp (inputs fed only where platform rounding equals exact rounding).  '
+              'format/parse, now, localtz are not modelled.')
 TECHNIQUE = 'Lean 4 proof (linear integer arithmetic) + kernel-decided table of declared parameter types + differential evaluation of expression trees'
 DESIGN_REF = 'DESIGN.md section 5, C20'
